@@ -179,5 +179,6 @@ def run_case(case, ctx):
         ctx.mark_nontrivial(gen.model_digest(kind, am, ph))
     ctx.seen("kind_n", (kind, nv))
     ctx.seen("observables", len(obs))
+    gen.scribble_spaces(st, nv)  # tensors handed out are the caller's: nothing later may depend on them
     ctx.sample({"case": case, "am": gen.small_params(am), "observables": [o[0] for o in obs][:8],
                 "SigmaX": float(np.sum(p * plain.get("SigmaX", np.zeros(N))))})
